@@ -143,6 +143,15 @@ fn eval(ctx: &Ctx, case: &Case) -> Verdict {
         }
     }
 
+    // (iii-c) the samples file handed over as something that is not a regular file: a pipe behind
+    // /dev/stdin (what `-S <(cut ...)` or `... | sfs create -S /dev/stdin` amount to)
+    {
+        let input = format!("c09.{}", case.container.ext());
+        let text = case.map.file_text(&case.cs);
+        let r = cli::sfs(ctx, &["create", "-S", "/dev/stdin", &input], cli::Input::Pipe(text.as_bytes()), &dir);
+        ensure!(r.code == base.code && r.stdout == base.stdout, "the samples file read from a pipe (`-S /dev/stdin`) gives a different result than the inline list `{}`: {} vs {}", case.map.inline_arg(&case.cs), r.describe(), base.describe());
+    }
+
     // (iv) a permutation that changes the label order permutes the axes correspondingly
     let changed = order_changing_permutation(&case.map, &case.draws);
     let (r4, a4) = run_create(ctx, &dir, "c09", &case.cs, &case.container, &opts(&changed), Transport::Path);
@@ -175,6 +184,22 @@ fn eval(ctx: &Ctx, case: &Case) -> Verdict {
         let (bytes, _) = crate::props::common::render(&case.cs, &case.container);
         let (rg, ag) = crate::props::common::run_create_bytes(ctx, &dir, "c09g", &ghost_cs, &bytes, case.container.ext(), &opts(&ghost_map), Transport::Path);
         ensure!(rg.clean_failure() && rg.stdout.is_empty(), "a listed sample that is absent from the input must be an error: `sfs {}`: {}", ag.join(" "), rg.describe());
+        // ... whatever else is asked for: with a projection (both spellings), strict, quiet
+        let pops = ghost_map.pop_sizes().len();
+        for (k, extra) in [
+            CreateOpts { project: Some(crate::props::common::Projection { m: vec![2; pops], individuals: true }), ..opts(&ghost_map) },
+            CreateOpts { project: Some(crate::props::common::Projection { m: vec![1; pops], individuals: false }), ..opts(&ghost_map) },
+            CreateOpts { strict: true, quiet: 1, ..opts(&ghost_map) },
+        ]
+        .into_iter()
+        .enumerate()
+        {
+            if k != (case.draws[13] as usize) % 3 {
+                continue;
+            }
+            let (rg, ag) = crate::props::common::run_create_bytes(ctx, &dir, "c09g", &ghost_cs, &bytes, case.container.ext(), &extra, Transport::Path);
+            ensure!(rg.clean_failure() && rg.stdout.is_empty(), "a listed sample that is absent from the input must be an error: `sfs {}`: {}", ag.join(" "), rg.describe());
+        }
         std::fs::write(dir.join("empty.samples"), "").expect("write");
         let input = format!("c09.{}", case.container.ext());
         let re = cli::sfs(ctx, &["create", "-S", "empty.samples", &input], cli::Input::Null, &dir);
@@ -203,7 +228,7 @@ fn eval(ctx: &Ctx, case: &Case) -> Verdict {
 pub fn check(ctx: &Ctx) -> Check {
     let parts: Vec<Box<dyn Part>> = vec![Box::new(RandomPart {
         name: "axes-and-permutations",
-        rule: "call sets x duplicate-free sample lists (subset, order, named/unnamed mix, 1..4 labels) x a permutation of the input's sample columns x two permutations of the list: absolute (reference model: axes in first-appearance order, lengths 2*count+1, exact values) and metamorphic, all byte-identical stdout: permuted sample columns, list permuted keeping the label order, --samples vs --samples-file; a list permutation changing the label order by pi must give the baseline with axes transposed by pi; ghost sample and empty samples file are errors; ~6 runs per case; non-trivial = >=2 labels with different sample counts and a non-identity column permutation",
+        rule: "call sets x duplicate-free sample lists (subset, order, named/unnamed mix, 1..4 labels) x a permutation of the input's sample columns x two permutations of the list: absolute (reference model: axes in first-appearance order, lengths 2*count+1, exact values) and metamorphic, all byte-identical stdout: permuted sample columns, list permuted keeping the label order, --samples vs --samples-file; a list permutation changing the label order by pi must give the baseline with axes transposed by pi; the samples file also without final newline, with CRLF, and read from a pipe (`-S /dev/stdin`); ghost sample (alone, and with a projection / --strict -q) and empty samples file are errors; ~11 runs per case; non-trivial = >=2 labels with different sample counts and a non-identity column permutation",
         cases: ctx.tier.pick(2000, 60_000),
         strategy: Box::new(|| strategy().boxed()),
         eval: Box::new(eval),
